@@ -6,6 +6,7 @@ package main
 
 import (
 	"os/exec"
+	"reflect"
 	"time"
 
 	"crypto/sha1"
@@ -228,6 +229,34 @@ type histEngines struct {
 	dns *urlfilter.DNSEngine
 	eng *urlfilter.Engine
 	net *urlfilter.NetworkEngine
+	// recycled: a request object that has been asked about before (see request)
+	recycled *rules.Request
+	recycle  bool
+	reqN     int
+}
+
+// request builds the request of a web query.  Every other one is not a new object but the previous one with its
+// exported fields set to those of the new request - the way the DNS engine recycles its pooled requests: a request is
+// its fields, whatever the object was used for before.
+func (e *histEngines) request(q *histQuery) *rules.Request {
+	fresh := rules.NewRequest(q.url, q.src, q.typ)
+	if !e.recycle {
+		return fresh // (only sequential drivers recycle: an object in use by another goroutine must not be refilled)
+	}
+	e.reqN++
+	if e.reqN%2 == 1 || e.recycled == nil {
+		e.recycled = fresh
+		return fresh
+	}
+	old := e.recycled
+	e.recycled = nil
+	dst, src := reflect.ValueOf(old).Elem(), reflect.ValueOf(fresh).Elem()
+	for i := 0; i < dst.NumField(); i++ {
+		if dst.Type().Field(i).IsExported() {
+			dst.Field(i).Set(src.Field(i))
+		}
+	}
+	return old
 }
 
 func newHistEngines(st *filterlist.RuleStorage) *histEngines {
@@ -318,7 +347,7 @@ func (e *histEngines) run2(q *histQuery) (digest string, res *histResult, texts,
 			}
 			texts = flagWithoutRule(texts, r, ok)
 		case "web":
-			mr := e.eng.MatchRequest(rules.NewRequest(q.url, q.src, q.typ))
+			mr := e.eng.MatchRequest(e.request(q))
 			res = &histResult{mr: mr}
 			digest = digestResult(q, res)
 			for _, r := range []*rules.NetworkRule{mr.BasicRule, mr.DocumentRule, mr.StealthRule} {
@@ -327,7 +356,7 @@ func (e *histEngines) run2(q *histQuery) (digest string, res *histResult, texts,
 				}
 			}
 		case "net":
-			rs := e.net.MatchAll(rules.NewRequest(q.url, q.src, q.typ))
+			rs := e.net.MatchAll(e.request(q))
 			digest = "net[" + sortedTextsWithList(rs) + "]"
 			texts = textsOf(rs)
 			netTexts = textsOf(rs)
@@ -508,6 +537,7 @@ func cmdDriveHistory(args []string) error {
 		}
 		out.write(map[string]any{"ev": "reset", "q": "", "a": "", "rid": 0, "k": "", "h": hnum})
 		eng := newHistEngines(st)
+		eng.recycle = true
 		var pool []*histQuery
 		for i := 0; i < 12; i++ {
 			pool = append(pool, rndHistQuery(hr))
@@ -620,6 +650,7 @@ func cmdDriveHistory(args []string) error {
 			}
 			var cmu sync.Mutex
 			differing := 0
+			eng.recycle = false
 			concurrently(len(asked), 4, seedFresh, func(_, i int) {
 				a, _, _, _ := eng.run(asked[i])
 				if d := shortDigest(a); d != seqAnswer[asked[i].key()] {
